@@ -35,6 +35,14 @@ func escapeTemplate(tmpl *Template, node parse.Node, name string) error {
 		if t := tmpl.set[name]; t != nil {
 			t.escapeErr = err
 			if c.err != nil {
+				if _, ok := tmpl.pristine[name]; !ok && t.text.Tree != nil {
+					// The tree was not rewritten. Templates that call this one in
+					// another context are escaped from their own copy of it.
+					if tmpl.pristine == nil {
+						tmpl.pristine = map[string]*parse.Tree{}
+					}
+					tmpl.pristine[name] = t.text.Tree
+				}
 				t.text.Tree = nil
 				t.Tree = nil
 			}
@@ -527,7 +535,7 @@ func (e *escaper) escapeTree(c context, node parse.Node, name string, line int) 
 	// identifier.
 	dname := mangle(c, name)
 	e.called[dname] = true
-	if bt := e.template(name); bt != nil && bt.Tree == nil {
+	if bt := e.template(name); bt != nil && bt.Tree == nil && (dname == name || e.ns.pristine[name] == nil) {
 		// The template was rendered unusable by an earlier escaping error. This must be
 		// checked before the memoised contexts: a template that was escaped but ended in a
 		// non-text context is memoised and unusable at the same time.
